@@ -51,7 +51,7 @@ fn kmers_for<C: CI>(ctx: &mut Ctx, k: usize) -> Vec<Vec<u8>> {
 fn ops_case<C: CI, const K: usize, S: KS>(ctx: &mut Ctx) {
     let a = C::alpha();
     let name = C::NAME;
-    if ctx.lite && !ctx.mine(K) {
+    if ctx.lite && !ctx.mine_group(K) {
         return;
     }
     let kb = K * a.bits as usize;
@@ -151,7 +151,7 @@ fn ops_case<C: CI, const K: usize, S: KS>(ctx: &mut Ctx) {
 fn rev_case<C: CI, const K: usize, S: KS>(ctx: &mut Ctx) {
     let a = C::alpha();
     let name = C::NAME;
-    if ctx.lite && !ctx.mine(K + 1) {
+    if ctx.lite && !ctx.mine_group(K + 1) {
         return;
     }
     let kb = K * a.bits as usize;
@@ -188,7 +188,7 @@ fn dna_case<C: CI, const K: usize, S: KS>(ctx: &mut Ctx) {
     if C::NAME != "dna" {
         return;
     }
-    if ctx.lite && !ctx.mine(K + 2) {
+    if ctx.lite && !ctx.mine_group(K + 2) {
         return;
     }
     let a = model::dna();
@@ -231,6 +231,23 @@ fn dna_case<C: CI, const K: usize, S: KS>(ctx: &mut Ctx) {
 
 fn main() {
     run_main("C09", |ctx| {
+        ctx.first_use_race(3, |t| {
+            let d: Seq<Dna> = "ACGTTGCAACGTACGTACGTACGTACGTACGTTTGAC".try_into().unwrap();
+            let i: Seq<Iupac> = "ACGTRYSWKMBDHVN-ACGT".try_into().unwrap();
+            let m: Seq<Amino> = "MAGICLIFEQ".try_into().unwrap();
+            let k: Kmer<Dna, 11> = Kmer::try_from(&d[t..t + 11]).unwrap();
+            let k32: Kmer<Dna, 32> = Kmer::try_from(&d[t..t + 32]).unwrap();
+            let ki: Kmer<Iupac, 7> = Kmer::try_from(&i[t..t + 7]).unwrap();
+            let ka: Kmer<Amino, 10> = Kmer::try_from(&m[..]).unwrap();
+            let ku: Kmer<Dna, 35, u128> = Kmer::try_from(&d[t..t + 35]).unwrap();
+            (
+                (k.to_rev().to_string(), k.to_comp().to_string(), k.to_revcomp().to_string(), k.rotated_left(3 + t as u32).to_string(), k.rotated_right(70000).to_string(), k.pushr(Dna::G).to_string(), k.pushl(Dna::T).to_string()),
+                (k32.to_revcomp().to_string(), k32.to_comp().to_string(), k32.rotated_left(31).to_string(), k32.pushl(Dna::C).to_string()),
+                (ki.to_rev().to_string(), ki.rotated_left(2).to_string(), ki.pushr(Iupac::N).to_string()),
+                (ka.to_rev().to_string(), ka.rotated_right(3).to_string()),
+                (ku.rotated_left(5).to_string(), ku.pushr(Dna::A).to_string(), ku.pushl(Dna::G).to_string()),
+            )
+        });
         if ctx.lite {
             for_each_k_small!(ops_case, usize, ctx);
             for_each_k_small!(ops_case, u128, ctx);
